@@ -34,7 +34,7 @@ def step (d : D) (op impl : String) : D × DrvOut :=
         if !subject name then "ok"
         else if noUnhandled ci ty then "ok"
         else if noUnhandled true ty then
-          "KNOWN iface-shared type tree of " ++ name ++ " has an interface-typed field holding references and deepClone has no Interface case: the independence theorem does not apply"
+          "KNOWN iface-shared the type tree of " ++ name ++ " reaches references through an interface-typed field (OptionalPath.Values) and deepClone has no reflect.Interface case: copies share those cells with the original"
         else "FAIL type tree of " ++ name ++ " contains a chan/func/array/unknown-interface node reachable through settable fields: deepClone cannot copy it"
       ({ name, ty := some ty }, { model := "ok", spec })
   | ["clone", name, _, vS] =>
